@@ -56,6 +56,8 @@ def execute(case, ctx):
     spec, env, inst, insts, ep = play(case, ctx, keep_states=True)
     sl = spec.slice_of(case["cfg"])
     ctx.event(f"env:{name}")
+    if name == "mtvrp":
+        ctx.event(f"env:mtvrp|{'mixed_variants' if sl in ('all', 'single_feat') else 'one_variant'}")
     if ep.dead_end is not None or ep.cap_hit or ep.T == 0:
         ctx.event("aborted_episode(C02 territory)")
         return
